@@ -413,8 +413,6 @@ class Histogram():
         If both *bins* and *make_bins* are provided,
         :exc:`.LenaTypeError` is raised.
         """
-        self._hist = histogram(edges, bins)
-
         if make_bins is not None and bins is not None:
             raise LenaTypeError(
                 "either initial bins or make_bins must be provided, "
@@ -423,6 +421,7 @@ class Histogram():
 
         # may be None
         self._initial_bins = copy.deepcopy(bins)
+        self._initial_value = initial_value
 
         # todo: bins, make_bins, initial_value look redundant
         # and may be reconsidered when really using reset().
@@ -430,6 +429,7 @@ class Histogram():
             bins = make_bins()
         self._make_bins = make_bins
 
+        self._hist = histogram(edges, bins, initial_value)
         self._cur_context = {}
 
     def fill(self, value):
@@ -454,11 +454,15 @@ class Histogram():
         Bins are reinitialized with the *initial_value*
         or with *make_bins()* (depending on the initialization).
         """
+        edges = self._hist.edges
         if self._make_bins is not None:
-            self.bins = self._make_bins()
+            bins = self._make_bins()
         elif self._initial_bins is not None:
-            self.bins = copy.deepcopy(self._initial_bins)
+            bins = copy.deepcopy(self._initial_bins)
         else:
-            self.bins = hf.init_bins(self.edges, self._initial_value)
+            bins = hf.init_bins(edges, self._initial_value)
+        # a new structure: n_out_of_range and the cached scale
+        # start anew, earlier yielded histograms stay intact
+        self._hist = histogram(edges, bins)
 
         self._cur_context = {}
